@@ -13,7 +13,10 @@
 (*        pointers, spike histories) of sample i in the batched / single   *)
 (*        run; qb / qs: real projection (voltages, currents, histories);   *)
 (*        bit: the real projections are bitwise identical.  Stages are     *)
-(*        ordered along the data flow.                                     *)
+(*        ordered along the data flow.  An event carries its own batch     *)
+(*        size B (the batch may be grown / shrunk through the `batchsz`    *)
+(*        setter mid-run: `resize` marks the first event after it - the    *)
+(*        setter clears the state, so no earlier exemption survives).      *)
 (*                                                                         *)
 (* BatchProduct says: the projection of the batched machine on sample i is *)
 (* the state of the i-th single machine after every step (NonInterference  *)
@@ -54,7 +57,9 @@ ExemptAt(t, exi, stages, k) == TolQ(t) > 0 /\ (exi \/ \E j \in 1..(k - 1) : ~sta
 SampleOK(t, exi, stages) ==
   \A k \in DOMAIN stages : ExemptAt(t, exi, stages, k) \/ (DiscEq(stages[k]) /\ RealEq(t, stages[k]))
 
-NewExempt(t, e) == {i \in 1..BSz(t) : TolQ(t) > 0 /\ \E j \in DOMAIN e.s[i] : ~e.s[i][j].bit}
+BE(e) == e.B
+NewExempt(t, e) == {i \in 1..BE(e) : TolQ(t) > 0 /\ \E j \in DOMAIN e.s[i] : ~e.s[i][j].bit}
+Before(exs, e) == IF e.resize THEN {} ELSE exs
 
 RECURSIVE SumParts(_, _, _)
 SumParts(p, k, n) == IF n = 0 THEN 0 ELSE p[n][k] + SumParts(p, k, n - 1)
@@ -62,12 +67,13 @@ SumParts(p, k, n) == IF n = 0 THEN 0 ELSE p[n][k] + SumParts(p, k, n - 1)
 \* SumReductionAdditive
 AccOK(t, e, exs) ==
   (e.acc.on /\ exs = {}) =>
-     /\ Len(e.acc.p) = BSz(t)
-     /\ \A k \in DOMAIN e.acc.b : AbsV(e.acc.b[k] - SumParts(e.acc.p, k, BSz(t))) <= e.acc.tol
+     /\ Len(e.acc.p) = BE(e)
+     /\ \A k \in DOMAIN e.acc.b : AbsV(e.acc.b[k] - SumParts(e.acc.p, k, BE(e))) <= e.acc.tol
 
-EventOK(t, exs, e) ==
-  /\ Len(e.s) = BSz(t)
-  /\ \A i \in 1..BSz(t) : SampleOK(t, i \in exs, e.s[i])
+EventOK(t, exs0, e) ==
+  LET exs == Before(exs0, e) IN
+  /\ Len(e.s) = BE(e)
+  /\ \A i \in 1..BE(e) : SampleOK(t, i \in exs, e.s[i])
   /\ AccOK(t, e, exs \cup NewExempt(t, e))
 
 Init == /\ tid \in 1..NT
@@ -78,7 +84,7 @@ Step ==
   /\ l <= Len(Evs(tid))
   /\ LET e == Evs(tid)[l] IN
        /\ (l \in Waived(tid) \/ EventOK(tid, ex, e))
-       /\ ex' = IF l \in Waived(tid) THEN 1..BSz(tid) ELSE ex \cup NewExempt(tid, e)
+       /\ ex' = IF l \in Waived(tid) THEN 1..8 ELSE Before(ex, e) \cup NewExempt(tid, e)
   /\ l' = l + 1
   /\ UNCHANGED tid
 
@@ -89,14 +95,14 @@ Track ==
   /\ IF l <= Len(Evs(tid)) /\ ~(l \in Waived(tid)) /\ ~EventOK(tid, ex, Evs(tid)[l])
      THEN LET e == Evs(tid)[l]
               t == tid
-              bad == {<<i, k>> \in (1..BSz(t)) \X (1..10) :
+              bad == {<<i, k>> \in (1..BE(e)) \X (1..10) :
                         /\ i <= Len(e.s) /\ k \in DOMAIN e.s[i]
-                        /\ ~ExemptAt(t, i \in ex, e.s[i], k)
+                        /\ ~ExemptAt(t, i \in Before(ex, e), e.s[i], k)
                         /\ ~(DiscEq(e.s[i][k]) /\ RealEq(t, e.s[i][k]))}
           IN PrintT(ToJson([diag |-> tid, l |-> l,
                             bad |-> {[sample |-> p[1], stage |-> p[2], disc |-> DiscEq(e.s[p[1]][p[2]]),
                                       real |-> RealEq(t, e.s[p[1]][p[2]])] : p \in bad},
-                            acc |-> AccOK(t, e, ex \cup NewExempt(t, e)),
+                            acc |-> AccOK(t, e, Before(ex, e) \cup NewExempt(t, e)),
                             exempt |-> ex]))
      ELSE TRUE
 
